@@ -39,6 +39,56 @@ def extra_cases(run):
             run.violation({"fam": fam, "clause": "one_bin_tails_raises", "tails": True, "bins": 1}, "%s spline with linear tails and num_bins = 1 raises %r" % (fam, e), {"kind": "one_bin", "fam": fam})
 
 
+def layer_tail_cases(run):
+    """The tails as the layers pass them on: every spline the library builds from (num_bins, tails, tail_bound) - the
+    element-wise CDF transforms, the coupling layers (their conditioned spline AND the unconditional spline of the
+    identity features) and the autoregressive layers - is the identity with zero log-det outside ITS tail bound,
+    for bounds below, at and above one."""
+    import warnings
+
+    warnings.filterwarnings("ignore")
+    import torch
+    from nflows import transforms as TR
+    from nflows.nn import nets
+    from nflows.transforms import nonlinearities as NL
+
+    def net(i, o):
+        return nets.ResidualNet(i, o, hidden_features=6, num_blocks=1)
+
+    for B in (0.5, 1.0, 2.5):
+        layers = {}
+        for fam in ("Linear", "Quadratic", "Cubic", "RationalQuadratic"):
+            layers["Piecewise%sCDF" % fam] = lambda fam=fam: getattr(NL, "Piecewise%sCDF" % fam)([4], num_bins=4, tails="linear", tail_bound=B)
+            layers["Piecewise%sCoupling+unconditional" % fam] = lambda fam=fam: getattr(TR, "Piecewise%sCouplingTransform" % fam)([1, 0, 1, 0], net, num_bins=4, tails="linear", tail_bound=B, apply_unconditional_transform=True)
+            if fam in ("Quadratic", "RationalQuadratic"):   # (the linear / cubic autoregressive layers have no tails)
+                layers["MaskedPiecewise%sAR" % fam] = lambda fam=fam: getattr(TR, "MaskedPiecewise%sAutoregressiveTransform" % fam)(4, 8, num_bins=4, num_blocks=1, tails="linear", tail_bound=B)
+        for name, build in layers.items():
+            run.case(("layer-tails", name, B))
+            torch.manual_seed(11)
+            try:
+                m = build().double()
+            except Exception as e:  # noqa
+                run.note_drift("%s(tail_bound=%s) cannot be built: %r" % (name, B, e))
+                continue
+            g = torch.Generator().manual_seed(5)
+            with torch.no_grad():
+                for p_ in m.parameters():
+                    p_.add_(0.5 * torch.randn(p_.shape, generator=g, dtype=torch.float64))
+            m.eval()
+            # every feature outside the bound, on both sides, at distances from a few percent to a few bounds
+            x = torch.tensor([[1.04, -1.3, 1.9, -4.0], [-1.04, 1.3, -1.9, 4.0], [1.6, 1.08, -1.08, -1.6]], dtype=torch.float64) * B
+            for direction in ("forward", "inverse"):
+                try:
+                    with torch.no_grad():
+                        y, lad = getattr(m, direction)(x.clone())
+                except Exception as e:  # noqa
+                    run.violation({"layer": name, "clause": "tails_raise", "tail_bound": B}, "%s(tail_bound=%s).%s raises %r on inputs beyond the tail bound" % (name, B, direction, e), {"kind": "layer_tails", "layer": name, "B": B})
+                    break
+                if not torch.equal(y, x) or bool((lad != 0).any()):
+                    run.violation({"layer": name, "clause": "tails_not_identity", "tail_bound": B}, "%s(tail_bound=%s).%s: inputs beyond the tail bound %s map to %s with log-det %s (the tails are the identity with zero log-det)" % (name, B, direction, x[0].tolist(), y[0].tolist(), lad.tolist()), {"kind": "layer_tails", "layer": name, "B": B})
+                    break
+
+
 def main(run, replay=None):
     run.rule = (
         "cases = lattice points of Spline.tla (per-bin theta in {0,1/4,1/2,3/4,1} of every bin plus one point on either side) "
@@ -49,9 +99,12 @@ def main(run, replay=None):
         c = replay["case"]
         if c.get("kind") == "one_bin":
             return extra_cases(run)
+        if c.get("kind") == "layer_tails":
+            return layer_tail_cases(run)
         return splinerun.replay_spline(run, "C09", c)
     splinerun.run_lattice(run, "C09", run.tier == "thorough")
     extra_cases(run)
+    layer_tail_cases(run)
     run.exhaustive = True
     run.assumptions = [
         "parameters and inputs on the rational lattice of Spline.tla (bins 1..3, boxes [0,1], [-3,-1]->[-1,0], tails 1, 11/10, 64)",
